@@ -82,7 +82,7 @@ def project():
         if d is None:       # __slots__ class
             own[lbl] = [[k, getattr(o, k)] for k in ("foo", "weight") if hasattr(o, k)]
         else:
-            own[lbl] = sorted([k, v] for k, v in d.items() if k not in ("_NodeMixin__children", "_NodeMixin__parent", "target", "name") and isinstance(v, str))
+            own[lbl] = sorted([k, v] for k, v in d.items() if k not in ("target", "name") and not k.startswith("_NodeMixin__") and isinstance(v, str))
     return {"par": par, "ch": ch, "tgt": tgt, "cls": cls, "foo": foo, "own": own}
 
 
